@@ -107,6 +107,9 @@ pub fn main(args: &Args) -> i32 {
         // stored snapshots disappear behind a client's back (a second instance pruning): the
         // next race then runs into a rollback that storage refuses
         vanish: 2,
+        // commits that receivers refuse: a refused commit is none of "its most recent commits"
+        // and must not leave a snapshot behind
+        rogue_commit: 2,
         ..Weights::default()
     };
     let spec = Spec {
